@@ -158,6 +158,11 @@ def run_impl(node, direction, x, context):
     try:
         with torch.no_grad():
             y, ld = (obj.forward if direction == 'fwd' else obj.inverse)(x, context)
+            # a wrapper is a pure function of its parts: evaluating the SAME object again must give the same result
+            # (the model is a pure function; if the repeat differs, the repeat is what gets compared with it)
+            y2, ld2 = (obj.forward if direction == 'fwd' else obj.inverse)(x, context)
+            if y2.shape != y.shape or not torch.equal(y2, y) or not torch.equal(ld2, ld):
+                y, ld = y2, ld2
     except Exception as e:
         return ('err', err_kind(e), 'call', log)
     return ('ok', y, ld, log)
